@@ -439,6 +439,7 @@ package stree
 //@   at after "slices.SortFunc(nodes, func(a, b *node[T]) int { return compare(a.X, b.X) })": ghost n1 = snap(nodes)
 //@   at after "slices.SortFunc(nodes, func(a, b *node[T]) int { return compare(a.X, b.X) })": assert [C01] forall k int :: {nodes[k]} 0 <= k && k < len(nodes) ==> 0 <= sp[k] && sp[k] < len(nodes) && nodes[k] == n0[addr(nodes, sp[k])] && nodes[k] != nil && fresh(nodes[k]) && nodes[k].X == keys[sp[k]] && sq[sp[k]] == k
 //@   at after "slices.SortFunc(nodes, func(a, b *node[T]) int { return compare(a.X, b.X) })": assert [C01] forall a int, b int :: {nodes[a], nodes[b]} 0 <= a && a < b && b < len(nodes) ==> nodes[a] != nodes[b] && rank(compare, nodes[a].X) <= rank(compare, nodes[b].X)
+//@   at after "slices.SortFunc(nodes, func(a, b *node[T]) int { return compare(a.X, b.X) })": assert [C01] forall i int :: {keys[i]} 0 <= i && i < len(keys) ==> n0[addr(nodes, i)] != nil && n0[addr(nodes, i)].X == keys[i] && 0 <= sq[i] && sq[i] < len(keys) && n1[addr(nodes, sq[i])] == n0[addr(nodes, i)]
 //@   at after "tree.max = len(nodes)": ghost cs = CompactFunc_src
 //@   at after "tree.max = len(nodes)": ghost ck = CompactFunc_keep
 //@   at after "tree.max = len(nodes)": assert [C01] forall i int :: {nodes[i]} 0 <= i && i < len(nodes) ==> 0 <= cs[i] && cs[i] < len(keys) && nodes[i] == n1[addr(nodes, cs[i])] && nodes[i] != nil && fresh(nodes[i]) && nodes[i].X == keys[sp[cs[i]]]
@@ -448,6 +449,7 @@ package stree
 //@   at after "tree.root = extract(nodes)": ghost tree.elems = ite(tree.root == nil, emptyset(tree.elems), tree.root.keys)
 //@   at after "tree.root = extract(nodes)": ghost tree.vals = tree.root.rep
 //@   at after "tree.root = extract(nodes)": ghost from = lambda k int :: sp[cs[extract_ki[k]]]
+//@   at after "tree.max = len(nodes)": assert [C01] forall i int :: {keys[i]} 0 <= i && i < len(keys) ==> 0 <= sq[i] && sq[i] < len(keys) && n1[addr(nodes, sq[i])] != nil && n1[addr(nodes, sq[i])].X == keys[i] && 0 <= ck[sq[i]] && ck[sq[i]] < len(nodes) && rank(compare, nodes[ck[sq[i]]].X) == rank(compare, keys[i])
 //@   at after "tree.root = extract(nodes)": assert [C01] forall i int :: {keys[i]} 0 <= i && i < len(keys) ==> 0 <= sq[i] && sq[i] < len(keys) && 0 <= ck[sq[i]] && ck[sq[i]] < len(nodes) && rank(compare, nodes[ck[sq[i]]].X) == rank(compare, keys[i])
 //@
 // extract builds a search tree from a slice of pairwise different nodes sorted by strictly ascending rank (what New
